@@ -27,7 +27,7 @@ def cases(tier, seed):
     for i in range(n):
         yield {"mesh": gen.random_mesh(rng, 150 if tier == "quick" else 1200, families=["voronoi", "delaunay", "merged", "polyhedron", "cubed_sphere", "latlon_patch", "latlon_global", "clustered", "fine_patch", "refined"]),
                "dseed": int(rng.integers(0, 10**6)), "lead": [int(x) for x in rng.integers(1, 4, size=int(rng.integers(0, 3)))],
-               "source": str(rng.choice(["topology", "topology", "mpas_supplied", "mpas_plain"]))}
+               "source": str(rng.choice(["topology", "topology", "mpas_supplied", "mpas_plain", "topology_edge_tables"]))}
 
 
 def run_case(ctx, case):
@@ -45,6 +45,24 @@ def run_case(ctx, case):
             supplied = info["supplied"].get("distances")
         except Exception as e:
             ctx.check("no_exception", False, {"stage": "open_mpas", "exc": core.exc_sig(e)}, {"exc": repr(e), "mesh": d})
+            return
+    elif case["source"] == "topology_edge_tables":
+        # the source ships its own edge tables (as UGRID / ICON files do): edges in any order, the two nodes and the two faces of
+        # an edge in either order (so face 0 may come second), boundary edges as (face, fill)
+        efm = ref.edge_faces(m.faces)
+        edges = sorted(efm, key=lambda e: sorted(e))
+        edges = [edges[i] for i in rng.permutation(len(edges))]
+        en_s = np.array([sorted(e) if rng.random() < 0.5 else sorted(e)[::-1] for e in edges], dtype=np.intp)
+        ef_s = np.full((len(edges), 2), ux.INT_FILL, dtype=np.intp)
+        for i_, e in enumerate(edges):
+            fs = sorted(efm[e])
+            if len(fs) == 2 and rng.random() < 0.6:
+                fs = fs[::-1]
+            ef_s[i_, : len(fs)] = fs
+        try:
+            g = ux.grid_from_mesh(m, extra={"edge_node_connectivity": en_s, "edge_face_connectivity": ef_s})
+        except Exception as e:
+            ctx.check("no_exception", False, {"stage": "open_edge_tables", "exc": core.exc_sig(e)}, {"exc": repr(e), "mesh": d})
             return
     else:
         g = ux.grid_from_mesh(m)
@@ -90,8 +108,13 @@ def run_case(ctx, case):
     lead = case["lead"]
     ldims = ["t%d" % i for i in range(len(lead))]
     n_face, n_node = g.n_face, g.n_node
-    for field in ("random", "constant", "integer"):
-        if field == "integer":  # category / mask fields stored as integers
+    for field in ("random", "constant", "integer", "with_nan"):
+        if field == "with_nan":  # masked data: a missing value on one side of an edge makes that edge's difference missing
+            fdat = rng.normal(size=tuple(lead) + (n_face,))
+            ndat = rng.normal(size=tuple(lead) + (n_node,))
+            fdat[..., rng.random(n_face) < 0.3] = np.nan
+            ndat[..., rng.random(n_node) < 0.3] = np.nan
+        elif field == "integer":  # category / mask fields stored as integers
             fdat = rng.integers(-6, 7, size=tuple(lead) + (n_face,)).astype(np.int64 if rng.random() < 0.5 else np.int32)
             ndat = rng.integers(-6, 7, size=tuple(lead) + (n_node,)).astype(np.int64)
         else:
@@ -109,11 +132,11 @@ def run_case(ctx, case):
             r = fda.difference(destination="edge")
             want = np.zeros(tuple(lead) + (n_edge,))
             want[..., interior] = np.abs(fdat[..., ef[interior, 0]] - fdat[..., ef[interior, 1]])
-            ctx.check("difference", np.asarray(r.values).shape == want.shape and np.array_equal(np.asarray(r.values), want), dict(sig, kind="face"), {"mesh": d})
+            ctx.check("difference", np.asarray(r.values).shape == want.shape and np.array_equal(np.asarray(r.values), want, equal_nan=True), dict(sig, kind="face"), {"mesh": d})
             ctx.check("dims_grid", ok_meta(r), dict(sig, op="difference_face"), {"dims": list(r.dims)})
             r = nda.difference(destination="edge")
             want = np.abs(ndat[..., en[:, 0]] - ndat[..., en[:, 1]])
-            ctx.check("difference", np.asarray(r.values).shape == want.shape and np.array_equal(np.asarray(r.values), want), dict(sig, kind="node"), {"mesh": d})
+            ctx.check("difference", np.asarray(r.values).shape == want.shape and np.array_equal(np.asarray(r.values), want, equal_nan=True), dict(sig, kind="node"), {"mesh": d})
             ctx.check("dims_grid", ok_meta(r), dict(sig, op="difference_node"), {"dims": list(r.dims)})
         except Exception as e:
             ctx.check("no_exception", False, dict(sig, stage="difference", exc=core.exc_sig(e)), {"exc": repr(e), "mesh": d})
@@ -126,20 +149,22 @@ def run_case(ctx, case):
             if got.shape == want.shape:
                 got = np.where(defined, got, 0.0)
                 want = np.where(defined, want, 0.0)
-            ctx.check("gradient", got.shape == want.shape and np.allclose(got, want, rtol=1e-13, atol=0), sig,
+            ctx.check("gradient", got.shape == want.shape and np.allclose(got, want, rtol=1e-13, atol=0, equal_nan=True), sig,
                       {"max_abs_diff": float(np.max(np.abs(got - want))) if got.shape == want.shape else None, "mesh": d})
             ctx.check("dims_grid", ok_meta(r), dict(sig, op="gradient"), {"dims": list(r.dims)})
             if field == "constant":
                 ctx.check("gradient", bool(np.all(got == 0)), dict(sig, what="zero_for_constant"), None)
-            else:
+            elif field != "with_nan":
                 ctx.check("gradient", bool(np.all(got[..., ~interior] == 0)), dict(sig, what="zero_on_boundary"), None)
                 if interior.any() and defined.all():
                     rn = fda.gradient(normalize=True)
                     gn = np.asarray(rn.values)
                     norms = np.sqrt(np.sum(gn * gn, axis=-1))
                     # independent along leading dims: every leading index has unit norm and is the normalised plain gradient
-                    wn = want / np.sqrt(np.sum(want * want, axis=-1, keepdims=True))
-                    ctx.check("normalized_gradient", gn.shape == want.shape and np.allclose(norms, 1.0, rtol=1e-12) and np.allclose(gn, wn, rtol=1e-12, atol=1e-15), sig,
+                    wnorm = np.sqrt(np.sum(want * want, axis=-1, keepdims=True))
+                    nz = wnorm[..., 0] > 0  # a leading index whose gradient vanishes everywhere (equal values on all faces) has no direction
+                    wn = want / np.where(wnorm > 0, wnorm, 1.0)
+                    ctx.check("normalized_gradient", gn.shape == want.shape and np.allclose(norms[nz], 1.0, rtol=1e-12) and np.allclose(gn[nz], wn[nz], rtol=1e-12, atol=1e-15), sig,
                               {"norms": np.ravel(norms)[:6].tolist(), "mesh": d})
                     ctx.check("dims_grid", ok_meta(rn), dict(sig, op="gradient_normalized"), {"dims": list(rn.dims)})
         except Exception as e:
